@@ -65,7 +65,7 @@ func (fc *funcCtx) call(st *State, ins ssa.Instruction, com *ssa.CallCommon, isG
 	}
 	_ = pos
 	if !isGo && len(bind) == 0 {
-		if r, halt, ok := fc.tryInline(st, callee, args); ok {
+		if r, halt, ok := fc.tryInline(st, callee, args, com.Args); ok {
 			return r, halt
 		}
 	}
@@ -76,7 +76,7 @@ func (fc *funcCtx) call(st *State, ins ssa.Instruction, com *ssa.CallCommon, isG
 // tryInline executes a module function that has no contract in place of the call, when it
 // is loop-free, defer-free and not (mutually) recursive: extracting a few statements into a
 // helper then needs no new contract. Its panic sites become obligations of the caller's run.
-func (fc *funcCtx) tryInline(st *State, callee *ssa.Function, args []Value) (res Value, halt bool, ok bool) {
+func (fc *funcCtx) tryInline(st *State, callee *ssa.Function, args []Value, ssaArgs []ssa.Value) (res Value, halt bool, ok bool) {
 	if fc.inlineDepth >= 2 || callee == fc.fn || len(callee.Blocks) == 0 || callee.Pkg == nil || !strings.HasPrefix(callee.Pkg.Pkg.Path(), modPath) {
 		return nil, false, false
 	}
@@ -92,7 +92,7 @@ func (fc *funcCtx) tryInline(st *State, callee *ssa.Function, args []Value) (res
 				return nil, false, false
 			case *ssa.Store:
 				// only its own locals: a helper that writes through its arguments needs a contract (frame)
-				if _, own := x.Addr.(*ssa.Alloc); !own {
+				if !rootedInOwnAlloc(x.Addr) && !throughScalarPtrParam(x.Addr) {
 					return nil, false, false
 				}
 			}
@@ -108,6 +108,17 @@ func (fc *funcCtx) tryInline(st *State, callee *ssa.Function, args []Value) (res
 		pt := sig.Params().At(i).Type()
 		if ptr, isPtr := pt.Underlying().(*types.Pointer); isPtr && isTextBuffer(ptr.Elem()) {
 			continue // a text buffer is a ghost string cell of the caller; writing it touches no heap storage
+		}
+		if ptr, isPtr := pt.Underlying().(*types.Pointer); isPtr && i < len(ssaArgs) && i < len(args) {
+			// the address of a scalar local of the caller, written at the call site as &x: the callee
+			// reads and writes that one cell, which the caller's loops already count as modified
+			if _, basic := ptr.Elem().Underlying().(*types.Basic); basic {
+				if al, isAlloc := ssaArgs[i].(*ssa.Alloc); isAlloc {
+					if pv, isPtrV := args[i].(PtrV); isPtrV && !pv.Heap && pv.OSeq == nil && pv.Cell == interface{}(al) {
+						continue
+					}
+				}
+			}
 		}
 		if !readOnlyType(pt) {
 			return nil, false, false
@@ -829,4 +840,58 @@ func typeHasPointerLike(t types.Type, seen map[types.Type]bool) bool {
 		return false
 	}
 	return true
+}
+
+
+// rootedInOwnAlloc: the address is a local of the function or a field / array element of one
+// (the elements of a composite literal are stored that way); an element of a slice value is not.
+func rootedInOwnAlloc(a ssa.Value) bool {
+	for {
+		switch x := a.(type) {
+		case *ssa.Alloc:
+			return true
+		case *ssa.FieldAddr:
+			a = x.X
+		case *ssa.IndexAddr:
+			if _, isSlice := x.X.Type().Underlying().(*types.Slice); isSlice {
+				return false
+			}
+			a = x.X
+		default:
+			return false
+		}
+	}
+}
+
+
+// throughScalarPtrParam: the address is the value of a parameter of type pointer-to-basic (read back
+// from the parameter's own slot). Whether the argument really is the address of a caller's local is
+// checked at the call site.
+func throughScalarPtrParam(a ssa.Value) bool {
+	ld, ok := a.(*ssa.UnOp)
+	if !ok || ld.Op != token.MUL {
+		return false
+	}
+	slot, ok := ld.X.(*ssa.Alloc)
+	if !ok || slot.Referrers() == nil {
+		return false
+	}
+	n := 0
+	for _, r := range *slot.Referrers() {
+		if st, ok := r.(*ssa.Store); ok && st.Addr == ssa.Value(slot) {
+			n++
+			p, isParam := st.Val.(*ssa.Parameter)
+			if !isParam {
+				return false
+			}
+			pt, isPtr := p.Type().Underlying().(*types.Pointer)
+			if !isPtr {
+				return false
+			}
+			if _, basic := pt.Elem().Underlying().(*types.Basic); !basic {
+				return false
+			}
+		}
+	}
+	return n == 1
 }
